@@ -8,7 +8,7 @@ def one(args):
     cell = run._find_cell(prop, tier, name)
     known = [e["region"] for e in run.load_known(prop) if e["status"] == "known" and e["region"] in cell.regions]
     st = sx.explore(cell.fn, known=known, budget_s=budget, per_path_s=cell.per_path_s)
-    return name, st["paths"], st["exhausted"], st["wall_s"], st["unknown"], (st["cex"][1] if st["cex"] else None), (st["error"] or "")[-300:]
+    return name, st["paths"], st["exhausted"], st["wall_s"], st["unknown"], (st["cex"][1] if st["cex"] else None), (st["error"] or "")[-int(os.environ.get("ERRLEN","300")):]
 if __name__ == "__main__":
     prop, tier, budget = sys.argv[1].upper(), sys.argv[2], float(sys.argv[3])
     pat = sys.argv[4] if len(sys.argv) > 4 else ""
